@@ -36,7 +36,7 @@ class C17(Base):
     ID = "C17"
     AREA = "cache"
     LEMMA_FILES = ["FluentProofs/Cache.lean", "FluentProofs/CacheLive.lean", "FluentProofs/CacheOps.lean"]
-    RULE = ("async: 1-4 concurrent Bundles::format_value/format_values/format_messages futures polled by hand with "
+    RULE = ("(plus a many-consumers / many-bundles family: 9-20 futures or 9-40 bundles) async: 1-4 concurrent Bundles::format_value/format_values/format_messages futures polled by hand with "
             "logging wakers over a scripted generator stream (0-6 bundles, each needing 0-3 external events before it "
             "is ready, end of stream likewise; the stream keeps only the last waker) under random schedules of "
             "start/poll/fire incl. spurious polls, polls of idle tasks, restarts at other depths, fair-executor "
@@ -63,9 +63,15 @@ class C17(Base):
     # ------------------------------------------------------------------------------------------
     # generators
 
-    def gen_async(self, rng, maxlen):
+    def gen_async(self, rng, maxlen, big=False):
         k = rng.choice([1, 2, 2, 3, 3, 4])
         n = rng.choice([0, 1, 2, 3, 3, 4, 5, 6])
+        if big:
+            # MANY consumers parked at once / MANY bundles (more than a small waker list or one chunk of the cache holds)
+            if rng.random() < 0.6:
+                k = rng.choice([9, 10, 12, 17, 20])
+            else:
+                n = rng.choice([9, 16, 17, 33, 40])
         p = rng.choice([0.0, 0.3, 0.6, 0.9])
         needs = [rng.choice([1, 1, 1, 2, 3]) if rng.random() < p else 0 for _ in range(n)]
         end = rng.choice([1, 2]) if rng.random() < p else 0
@@ -86,13 +92,18 @@ class C17(Base):
                 ops.append("poll:%d" % rng.randrange(k))
         return "cache " + ";".join([header("a", k, needs, end)] + ops)
 
-    def gen_fair(self, rng, maxlen):
+    def gen_fair(self, rng, maxlen, big=False):
         """fair single-threaded executor: only tasks whose waker fired (or that were just spawned) are polled; when
         the run queue is empty the source fires.  Uses its own tiny simulation of the EXPECTED wake-ups only to
         decide whom to poll (no spurious polls, so pending_wakes stays duplicate-free and deep states are reached);
         a lost wake-up in the implementation is caught by the predicate's flag bookkeeping on the wake log."""
         k = rng.choice([2, 2, 3, 4])
         n = rng.choice([1, 2, 3, 4, 5])
+        if big:
+            if rng.random() < 0.6:
+                k = rng.choice([9, 10, 12, 17, 20])
+            else:
+                n = rng.choice([9, 16, 17, 33, 40])
         needs = [rng.choice([0, 1, 1, 2]) for _ in range(n)]
         end = rng.choice([0, 1, 2])
         ops = []
@@ -182,6 +193,10 @@ class C17(Base):
             yield self.gen_fair(rng, 60)
         for _ in range(3000 if quick else 40000):
             yield self.gen_sync(rng, 10)
+        for _ in range(300 if quick else 10000):
+            yield self.gen_fair(rng, 400, big=True)
+        for _ in range(300 if quick else 10000):
+            yield self.gen_async(rng, 150, big=True)
         # exhaustive family: 2 consumers, 3 bundles, all schedules of a fixed length (observations of every prefix
         # are part of the observation of the full schedule)
         alphabet = ["poll:0", "poll:1", "fire"]
